@@ -47,7 +47,7 @@ def label(tr):
         if ev["goterr"] != ev["wanterr"]:
             cls.append("error")
         ev["diffcls"] = "+".join(cls) if cls else "none"
-        fx = ix.FILTERS[ev["f"]]
+        fx = ix.FILTERS[ev["f"].partition("@")[0]]
         # (a prop-filter is-not-defined directly inside the component filter, nothing else)
         ev["fkind"] = "time-range" if "time-range" in fx else \
             "prop-is-not-defined" if ev["f"] in ("noSum", "fC", "noLoc") else "other"
@@ -119,6 +119,10 @@ def run(prop, tier, seed, replay=None):
             [["put", "a", "att"], ["put", "b", "attN"], ["put", "c", "jan"], ["put", "d", "att2"]] +
             [["query", "partstat"]] * 4 + [["query", "noPartstat"]] * 3 + [["query", "declined"]] * 2 +
             [["query", "noPartstat"], ["query", "partstat"], ["query", "hasAtt"]],
+            # one filter asked under different time zones of the query
+            [["put", "a", "float"], ["put", "b", "allday"], ["put", "c", "jan"], ["put", "d", "floatIn"]] +
+            [["query", "tJan"]] * 4 + [["query", "tJan@America/New_York"]] * 2 + [["query", "tJan@Asia/Tokyo"]] * 2 +
+            [["query", "tFeb@America/New_York"], ["query", "tFeb"], ["query", "tFeb@Asia/Tokyo"], ["query", "tJan"]],
             # a read that transforms what it returns (expansion of recurrences) between queries
             # that look at what the expansion removes
             [["put", "a", "weekly"], ["put", "b", "jan"], ["query", "hasRrule"], ["query", "noRrule"], ["expand"]] +
